@@ -93,6 +93,11 @@ CHECKS = {
    text="O1: the C19 program transcripts of the period_type_u16/u32/u64 builds (and u16+unsafe) must equal the default build's for all programs (parameters <= 254) the default build accepts. O2: the from-scratch/recurrence/exact-selection/crossing checks are executed inside the u16/u32/u64 builds with window lengths 255..65534 added, and inside value_type_f32 (single-precision epsilon, reference in f64 on f32-rounded inputs) and its unsafe combination.",
    note="Quick tier uses four feature builds (u16, u64, f32, u16+unsafe), thorough all seven. All builds are produced by ./check from the current /repo tree.",
    ref="DESIGN.md §5 C20"),
+ "C06": dict(
+   technique="PBT with definitional re-computation of every signal from the indicator's own returned values (exact), deviation models for doc/code rule conflicts",
+   text="36 indicators with signals, generated configurations (all MA kinds) and candle streams: at every step each signal slot is recomputed from the returned values, the candle and the configuration with independent crossing/reversal/latch/counter detectors and an independent float->strength conversion, and must equal the returned Action. Evidence lists per slot whether Buy and Sell fired (all slots fire in both directions in 16-97% of cases).",
+   note="Rules are the ones frozen in DESIGN §6. Known findings (listed): PivotReversalStrategy and TrendStrengthIndex #2 implement another rule than documented (deviation models keep other regressions visible).",
+   ref="DESIGN.md §5 C05/C06, §6"),
 }
 
 PENDING = {
